@@ -15,6 +15,7 @@ from mir import Origins, strip, Origin
 from rules import parse_e2 as PE
 import e1
 
+THOROUGH_CONFIGS = ("release", "arbitrary")
 LEVEL = "proof"
 HDR = "stun_types::message::MessageHeader"
 
